@@ -1,6 +1,6 @@
 SPECIFICATION Spec
 CONSTANTS
-  NW = 5
+  NW = 4
   Mode = "any"
   MaxDepth = 0
   Pads = {0}
